@@ -71,10 +71,18 @@ type Source struct {
 	FailAt        int               // byte offset at which reads fail (-1 none)
 	Forever       bool
 	WithData      bool // deliver the error together with the last bytes before FailAt
+	Err           error // the error value of the fault (nil: ErrInjected)
 	Hit           int
 	Calls         int
 	CallsAfterEnd int
 	Yield         func()
+}
+
+func (s *Source) fault() error {
+	if s.Err != nil {
+		return s.Err
+	}
+	return ErrInjected
 }
 
 func NewSource(data []byte) *Source { return &Source{Data: data, Frag: "whole", FailAt: -1} }
@@ -91,7 +99,7 @@ func (s *Source) Read(p []byte) (int, error) {
 	if s.FailAt >= 0 && (s.Hit == 0 || s.Forever) {
 		if s.Pos >= s.FailAt {
 			s.Hit++
-			return 0, ErrInjected
+			return 0, s.fault()
 		}
 		limit = s.FailAt
 	}
@@ -121,7 +129,7 @@ func (s *Source) Read(p []byte) (int, error) {
 	s.Pos += n
 	if s.WithData && s.FailAt >= 0 && s.Pos == s.FailAt && n > 0 && (s.Hit == 0 || s.Forever) {
 		s.Hit++
-		return n, ErrInjected
+		return n, s.fault()
 	}
 	if s.Frag == "eofwith" && s.Pos == len(s.Data) {
 		return n, io.EOF
